@@ -72,7 +72,7 @@ theorem step_ok_inv {s : Srv} (h : Inv s) (e : Ev) (hw : wf s e = true) :
     · exact ⟨_, e1, h0⟩
     · exact ⟨_, e1, h0.afterResult v hb h1 hc ht⟩
   | error m msg =>
-    rcases routeUp_eq h0 (s := { s with out := [] }) m (fun c => .errorTo c msg) with ⟨_, e1⟩ | ⟨t, c, _, _, e1⟩
+    rcases handleError_eq h0 (s := { s with out := [] }) m msg with ⟨_, e1⟩ | ⟨b, t, c, ts, _, _, _, _, _, e1⟩
     · exact ⟨_, e1, h0⟩
     · exact ⟨_, e1, h0.emit _⟩
   | log m msg =>
